@@ -193,6 +193,7 @@ def run(prop, tier, seed, backends=BACKENDS, only_universe=None):
     for key, fn in MATCHERS.get(prop, {}).items():
         out.add_matcher(key, fn)
     rnd = random.Random(seed)
+    design = tlc.DesignCheck([("MC_Store", "MC_Store_%s.cfg" % b, "Store/" + b) for b in backends], workers=3, timeout=1800)
     depth = {"quick": 3, "thorough": 4}[tier]
     cap = {"quick": 500, "thorough": 20000}[tier]
     own = prop + "_"
@@ -261,6 +262,7 @@ def run(prop, tier, seed, backends=BACKENDS, only_universe=None):
                 out.violation(what, attrs, lambda p, uni=uni, tr=tr, bad=bad, backend=backend, uname=uname, sc=cf["scripts"][k]:
                               trace.dump_replay(p, {"property": prop, "backend": backend, "universe": uname,
                                                     "script": list(sc)}, uni, tr, bad))
+    design.join(out)
     out.cov["distinct_nontrivial"] = len(distinct)
     out.cov["rule"] = ("behaviours of Store.tla (Submit / Writer / Gc) enumerated by TLC to depth %d over %d hand-made universes "
                        "(at most %d per universe x backend x writer mode, seeded sample beyond), run on DBStorage(SQLite) and "
